@@ -140,6 +140,10 @@ pub const ALL_ACCS: [Acc; 5] = [Acc::Add, Acc::Subtract, Acc::Multiply, Acc::Ove
 
 /// A feedback block whose layer list maps `input` to the same shape.
 pub fn gen_feedback(rng: &mut Rng, opts: &GenOpts, input: ShapeCfg, max_loops: usize) -> Option<LayerCfg> {
+    // a block maps its input width onto itself `loops` times: quadratic in the width
+    if input.count() > 130 {
+        return None;
+    }
     let mut layers = Vec::new();
     let loops = if scale() && rng.chance(0.5) { rng.range(6, 12) } else { rng.range(1, max_loops) };
     let inskips = rng.chance(0.5);
@@ -302,7 +306,7 @@ pub fn gen_net(rng: &mut Rng, opts: &GenOpts) -> NetCfg {
             _ => Some(LayerCfg::Dense {
                 // scale stratum: wide layers, and now and then a very wide one (inner products
                 // over more than a thousand terms); never two very wide layers in a row
-                out: if scale() && cur.count() < 1000 && rng.chance(0.6) {
+                out: if scale() && cur.count() <= 130 && rng.chance(0.6) {
                     if rng.chance(0.2) {
                         rng.pick(&[1024usize, 1100, 2048, 2100])
                     } else {
@@ -519,4 +523,10 @@ pub fn eval_size(rng: &mut Rng) -> usize {
         7 => rng.pick(&[31usize, 32, 33]),
         _ => rng.range(2, 70),
     }
+}
+
+/// Whether some layer boundary of the network is very wide (>= 1000 elements): such
+/// networks get moderate data sets and short histories, they are expensive per sample.
+pub fn very_wide(net: &NetCfg) -> bool {
+    net.shapes().map(|v| v.iter().any(|s| s.count() >= 1000)).unwrap_or(false)
 }
